@@ -389,4 +389,3 @@ type integer interface {
 type float interface{ ~float32 | ~float64 }
 
 type complexT interface{ ~complex64 | ~complex128 }
-
